@@ -490,7 +490,7 @@ def evaluate(ctx, drv, orc, hist, res, shrink=True, drv_assert=None):
         if v is None:
             continue
         case_ops = ops[:v["step"] + 1]
-        if shrink and shrunk.get(v["kind"], 0) < 2:
+        if shrink and shrunk.get(v["kind"], 0) < 1 and sum(shrunk.values()) < 6:
             shrunk[v["kind"]] = shrunk.get(v["kind"], 0) + 1
             case_ops, v = shrink_case(drv, orc, name, case_ops, v)
         res.violation(v["kind"], v["what"], {"name": name, "ops": case_ops}, expected=v["expected"], observed=v["observed"],
